@@ -2,7 +2,11 @@
 
 package tengo
 
-import "sync/atomic"
+import (
+	"sync/atomic"
+
+	"github.com/d5/tengo/v2/parser"
+)
 
 // Verification hooks (build tag "verif"). None of them changes behaviour
 // unless a harness installs a callback.
@@ -78,4 +82,47 @@ func (c *Compiled) VerifBytecode() *Bytecode { return c.bytecode }
 // VerifGlobals exposes the globals slice and index of a compiled script.
 func (c *Compiled) VerifGlobals() ([]Object, map[string]int) {
 	return c.globals, c.globalIndexes
+}
+
+// VerifOptPair is one invocation of the dead-code optimizer: the instructions and
+// source map it was given and the ones it produced (including the appended return).
+type VerifOptPair struct {
+	NodePos parser.Pos
+	In      []byte
+	InMap   map[int]parser.Pos
+	Out     []byte
+	OutMap  map[int]parser.Pos
+}
+
+var verifOptSink func(VerifOptPair)
+
+// VerifSetOptSink installs a recorder of optimizer input/output pairs.
+func VerifSetOptSink(f func(VerifOptPair)) { verifOptSink = f }
+
+func verifCopyMap(m map[int]parser.Pos) map[int]parser.Pos {
+	out := make(map[int]parser.Pos, len(m))
+	for k, v := range m {
+		out[k] = v
+	}
+	return out
+}
+
+func verifOptSnapshot(c *Compiler) ([]byte, map[int]parser.Pos) {
+	if verifOptSink == nil {
+		return nil, nil
+	}
+	sc := c.scopes[c.scopeIndex]
+	return append([]byte{}, sc.Instructions...), verifCopyMap(sc.SourceMap)
+}
+
+func verifOptReport(c *Compiler, node parser.Node, in []byte, inMap map[int]parser.Pos) {
+	if verifOptSink == nil || in == nil {
+		return
+	}
+	sc := c.scopes[c.scopeIndex]
+	p := VerifOptPair{In: in, InMap: inMap, Out: append([]byte{}, sc.Instructions...), OutMap: verifCopyMap(sc.SourceMap)}
+	if node != nil {
+		p.NodePos = node.Pos()
+	}
+	verifOptSink(p)
 }
